@@ -7,7 +7,8 @@
    Section variable [resolve_enclosing_class].
 
    Oracles are Section variables ranging over every behaviour documented for them:
-     import_module : module | ModuleNotFoundError | ValueError (only for "") | TypeError (only for a relative name)
+     import_module : module | ModuleNotFoundError | ImportError (the module exists but cannot be imported) |
+                     ValueError (only for "") | TypeError (only for a relative name)
      getattr_      : object | AttributeError                  (on a module or on a class)
      issubclass_ser: bool   | TypeError (only when the first argument is not a class)          *)
 From Coq Require Import List ZArith Bool.
@@ -28,7 +29,7 @@ Section Resolve.
        names = qualified_name.split(".")
        for number_of_module_names in range(len(names) - 1, 0, -1):
            try: owner = importlib.import_module(".".join(names[:number_of_module_names]))
-           except ModuleNotFoundError: continue                       -- any other exception propagates
+           except ImportError: continue             -- (34c3d21; was ModuleNotFoundError) any other exception propagates
            for name in names[number_of_module_names:]:
                owner = getattr(owner, name, None)                      -- AttributeError -> None; others propagate
                if not isinstance(owner, type): return None
@@ -47,7 +48,7 @@ Section Resolve.
     | O => Ok None
     | S k' => match import_module (join_dots (firstn k names)) with
               | Ok m => walk_classes (OMod m) (skipn k names)
-              | Exn e => if pyexn_isa e ModuleNotFoundError then try_prefixes names k' else Exn e
+              | Exn e => if pyexn_isa e ImportError then try_prefixes names k' else Exn e
               end
     end.
   Definition enclosing (qualified_name : str) : M (option (owner pymodule pyclass)) :=
@@ -86,7 +87,7 @@ Section Resolve.
   (* what the oracles document *)
   Definition importer_documented : Prop :=
     forall s e, import_module s = Exn e ->
-      e = ModuleNotFoundError \/ (e = ValueError /\ s = []) \/ (e = TypeError /\ str_startswith s [DOT] = true).
+      e = ModuleNotFoundError \/ e = ImportError \/ (e = ValueError /\ s = []) \/ (e = TypeError /\ str_startswith s [DOT] = true).
   Definition getattr_documented : Prop := forall o n e, getattr_ o n = Exn e -> e = AttributeError.
   Definition issubclass_documented : Prop :=
     (forall c e, issubclass_ser c = Exn e -> e = TypeError) /\
